@@ -69,6 +69,26 @@ for G in [g for g in gsel for _ in range(NV)]:
     reps["equivalent"] = Orientation(np.vstack([proper_member(k) for k in range(NPTS)]), symmetry=G)
     if not bool(np.any(E.improper)) and E.size != G.size:
         fail(f"equivalent:size:{G.name}", "equivalent() does not return |G| members", {"G": G.name})
+    # the WHOLE set of equivalents (for a group with improper operations it holds improper-flagged members s*O): every
+    # member has zero reduced angle to the orientation, in both argument orders, and the same reduced angle to a third
+    # orientation -- through the outer API, which relates a proper and an improper-flagged orientation by the improper
+    # symmetry elements
+    E.symmetry = G
+    st(f"equivalent-set-outer/{cl}")
+    rep_e = {"G": G.name, "method": "equivalent-set-outer", "q": q[0].tolist()}
+    try:
+        a_oe = O[0:1].angle_with_outer(E)
+        a_eo = E.angle_with_outer(O[0:1])
+        if np.max(a_oe) > 1e-6 or np.max(a_eo) > 1e-6:
+            fail(f"zero-angle:equivalent-set-outer:{cl}:{G.name}", f"angle_with_outer between an orientation and the members of its equivalent() set is up to "
+                 f"{np.rad2deg(max(np.max(a_oe), np.max(a_eo))):.2f} deg for {G.name} (improper-flagged members: {int(np.sum(E.improper))})", rep_e)
+        t_e = T[0:1].angle_with_outer(E).reshape(-1)
+        t_o = float(T[0:1].angle_with_outer(O[0:1]).reshape(-1)[0])
+        if np.max(np.abs(t_e - t_o)) > 1e-6:
+            fail(f"third-angle:equivalent-set-outer:{cl}:{G.name}", f"the reduced angle of a third orientation to the members of equivalent() differs by up to "
+                 f"{np.rad2deg(np.max(np.abs(t_e - t_o))):.2f} deg ({G.name})", rep_e)
+    except Exception as e:  # noqa
+        fail(f"equivalent-set-outer:raises:{G.name}", f"{type(e).__name__}: {e}", rep_e)
     base_dir = (O * v).in_fundamental_sector(G).data
     base_T = O.angle_with(T)
     if HAVE_COLOUR:
